@@ -617,3 +617,73 @@ def c11_r11(ctx):
                 K.name, "active" if key[0] else "exhausted", "active" if key[1] else "exhausted",
                 {"null": "nothing", "a": "a's replacement", "b": "b's replacement"}[want[key]]),
                 detail="computed: %s" % got[key] if got[key] != want[key] else "")
+
+
+@rule("C11", "R12", "K2", "a private alignment helper reads a sub-matcher's id() only where the sub-matcher is known to be active",
+      min_instances=3, also=("C01",),
+      clause="id() of an exhausted matcher is undefined (ListMatcher raises IndexError, a leaf returns the last block's garbage). "
+             "In whoosh/matching/binary.py every `<sub>.id()` inside a private helper (_find_next, _find_first, ...) is reached "
+             "only with `<sub>.is_active()` known true -- from a test in the helper itself or, failing that, at every call site of "
+             "the helper in the class.  Public methods are not judged here: their callers own that contract (C11-R1..R3).")
+def c11_r12(ctx):
+    prog = ctx.prog
+    mod = prog.module("matching.binary")
+    n = 0
+    for c in sorted(prog.classes.values(), key=lambda k: k.qualname):
+        if c.module is not mod:
+            continue
+        # what `self.is_active()` being true tells about the parts: the conjuncts of the class's one-line is_active()
+        implied = set()
+        ia = prog.lookup(c, "is_active")
+        if ia is not None:
+            rs = [r for r in returns_of(ia) if r.value is not None]
+            if len(rs) == 1:
+                implied = set(norm.canon(a_) for pol_, a_ in guards.atoms(rs[0].value, "T") if pol_ == "T")
+
+        def known(alt, want):
+            return want in alt or (("T", "self.is_active()") in alt and want[1] in implied)
+        for f in c.methods.values():
+            if not f.name.startswith("_") or f.name.startswith("__"):
+                continue
+            fa = None
+            al = norm.aliases(f.node)
+            for x in norm.calls_in(f.node):
+                if not (isinstance(x.func, ast.Attribute) and x.func.attr == "id" and not x.args):
+                    continue
+                recv = norm.canon(x.func.value, al)
+                if recv not in ("self.a", "self.b"):
+                    continue
+                if fa is None:
+                    fa = guards.Facts(f, textfn=lambda e: norm.canon(e, al))
+                n += 1
+                ctx.saw(f)
+                want = ("T", "%s.is_active()" % recv)
+                node = fa.node_of(x)
+                alts = fa.alternatives(node) if node is not None else None
+                ok = bool(alts) and all(known(a_, want) for a_ in alts)
+                where = "in the helper"
+                detail = ""
+                if not ok:
+                    # every call site of the helper in the hierarchy must know it
+                    sites = []
+                    for k in [c] + list(prog.subclasses(c, strict=True)):
+                        for g in k.methods.values():
+                            if g is f:
+                                continue
+                            for cc in norm.calls_in(g.node):
+                                if norm.canon(cc.func) == "self.%s" % f.name:
+                                    sites.append((g, cc))
+                    ok = bool(sites)
+                    where = "at its %d call sites" % len(sites)
+                    for g, cc in sites:
+                        fg = guards.Facts(g)
+                        nd = fg.node_of(cc)
+                        alts_g = fg.alternatives(nd) if nd is not None else None
+                        if not alts_g or not all(known(a_, want) for a_ in alts_g):
+                            ok = False
+                            detail = "%s calls self.%s() without knowing %s: %s.id() of an exhausted matcher (IndexError on a " \
+                                     "list matcher)" % (g.short, f.name, want[1], recv)
+                ctx.ob(f, ok, "%s.id() is read with %s known active (%s)" % (recv, recv, "helper or callers"), detail=detail,
+                       loc=ctx.nodeloc(f, x))
+    if n == 0:
+        raise AnalysisError("no private alignment helper of matching.binary reads a sub-matcher id")
